@@ -334,11 +334,14 @@ func cmdTrunc(args []string) {
 func (s *persistSummary) bigTrunc(seed uint64) {
 	// the columns are written in creation order: once with a large column last in the block (the
 	// frame then closes exactly at the block's end), once with a small one last
-	s.bigTruncLayout(seed, []string{"v", "s1", "s2"})
-	s.bigTruncLayout(seed, []string{"s1", "s2", "v"})
+	s.bigTruncLayout(seed, []string{"v", "s1", "s2"}, 16384+1200)
+	s.bigTruncLayout(seed, []string{"s1", "s2", "v"}, 16384+1200)
+	// one full block whose last column alone spans several compressed frames: the stream's last
+	// payload is cut in the middle of a frame
+	s.bigTruncLayout(seed, []string{"v", "s1"}, 16384)
 }
 
-func (s *persistSummary) bigTruncLayout(seed uint64, order []string) {
+func (s *persistSummary) bigTruncLayout(seed uint64, order []string, rows int) {
 	rng := NewRng(seed ^ 0xb17)
 	lg := &countLogger{}
 	mk := func() *column.Collection {
@@ -354,7 +357,10 @@ func (s *persistSummary) bigTruncLayout(seed uint64, order []string) {
 	}
 	c := mk()
 	defer c.Close()
-	const rows = 16384 + 300
+	has := map[string]bool{}
+	for _, n := range order {
+		has[n] = true
+	}
 	c.Query(func(txn *column.Txn) error {
 		for i := 0; i < rows; i++ {
 			txn.Insert(func(r column.Row) error {
@@ -363,13 +369,45 @@ func (s *persistSummary) bigTruncLayout(seed uint64, order []string) {
 					b[j] = byte('a' + rng.Intn(26))
 				}
 				r.SetString("s1", string(b))
-				r.SetString("s2", string(b[:140]))
+				if has["s2"] {
+					r.SetString("s2", string(b[:140]))
+				}
 				r.SetInt64("v", int64(i))
 				return nil
 			})
 		}
 		return nil
 	})
+	// what the collection holds: row count and a digest of every value
+	digest := func(col *column.Collection) (n int, sum uint64) {
+		col.Query(func(txn *column.Txn) error {
+			readers := []interface{ Get() (string, bool) }{txn.String("s1")}
+			if has["s2"] {
+				readers = append(readers, txn.String("s2"))
+			}
+			v := txn.Int64("v")
+			txn.Range(func(i uint32) {
+				n++
+				h := uint64(i) * 1099511628211
+				for _, rd := range readers {
+					if x, ok := rd.Get(); ok {
+						for j := 0; j < len(x); j++ {
+							h = (h ^ uint64(x[j])) * 1099511628211
+						}
+					} else {
+						h ^= 0x9e3779b97f4a7c15
+					}
+				}
+				if x, ok := v.Get(); ok {
+					h = (h ^ uint64(x)) * 1099511628211
+				}
+				sum += h
+			})
+			return nil
+		})
+		return
+	}
+	wantN, wantSum := digest(c)
 	var file bytes.Buffer
 	if err := c.Snapshot(&file); err != nil {
 		s.Failures = append(s.Failures, "big snapshot failed: "+err.Error())
@@ -387,6 +425,16 @@ func (s *persistSummary) bigTruncLayout(seed uint64, order []string) {
 	}
 	for i := 0; i < 30; i++ {
 		set[rng.Intn(len(data))] = true
+	}
+	// inside the last two compressed frames (the last block's columns, the commit log's tail)
+	if n := len(bounds); n >= 2 {
+		from := 0
+		if n >= 3 {
+			from = bounds[n-3]
+		}
+		for i := 0; i < 40; i++ {
+			set[from+rng.Intn(len(data)-from)] = true
+		}
 	}
 	var cuts []int
 	for k := range set {
@@ -418,7 +466,7 @@ func (s *persistSummary) bigTruncLayout(seed uint64, order []string) {
 			}
 		})
 		s.Cuts++
-		desc := fmt.Sprintf("seed %d big snapshot (columns %v, %d rows in 2 blocks, %d bytes, %d compressed frames) cut %d", seed, order, rows, len(data), len(bounds), k)
+		desc := fmt.Sprintf("seed %d big snapshot (columns %v, %d rows, %d bytes, %d compressed frames) cut %d", seed, order, rows, len(data), len(bounds), k)
 		switch {
 		case !ok:
 			s.Failures = append(s.Failures, desc+": Restore did not return")
@@ -430,6 +478,8 @@ func (s *persistSummary) bigTruncLayout(seed uint64, order []string) {
 			s.Clean++
 			if n := d.Count(); n != rows {
 				s.Failures = append(s.Failures, desc+fmt.Sprintf(": Restore of the truncated file succeeded with %d of %d rows (some of the blocks)", n, rows))
+			} else if gn, gs := digest(d); gn != wantN || gs != wantSum {
+				s.Failures = append(s.Failures, desc+fmt.Sprintf(": Restore of the truncated file succeeded with all %d rows but other values than the original's", n))
 			}
 		}
 		if ok {
